@@ -84,6 +84,9 @@ class StageResult:
 
 
 def sanitizer_summary(log_text):
+    m = re.search(r"VERIF-ABORT: ([\w-]+)", log_text)
+    if m:
+        return "abort:" + m.group(1)
     m = re.search(r"SUMMARY: (\w+Sanitizer): ([\w-]+)", log_text)
     if m:
         return "%s:%s" % (m.group(1), m.group(2))
@@ -97,7 +100,7 @@ def sanitizer_summary(log_text):
 
 
 def crash_excerpt(logtext):
-    m = re.search(r"^.*(runtime error|ERROR: \w+Sanitizer|Assertion `|terminate called).*$", logtext, re.M)
+    m = re.search(r"^.*(VERIF-ABORT|runtime error|ERROR: \w+Sanitizer|WARNING: ThreadSanitizer|Assertion `|terminate called).*$", logtext, re.M)
     if m:
         return logtext[m.start():m.start() + 2500]
     return logtext[-2500:]
@@ -470,7 +473,10 @@ def setup():
     t0 = time.time()
     flavors = set()
     jobs = []
+    ready = set(open(os.path.join(VERIF, "run", "ready.txt")).read().split())
     for pid, P in sorted(props.PROPS.items()):
+        if pid not in ready:
+            continue
         for st in P["stages"]:
             flavors.add((st.get("flavor", "asan"), tuple(st.get("lib_defs", ()))))
             jobs.append((pid, st))
